@@ -32,6 +32,7 @@ class StubAgent:
         self.budget = budget
         self.cost = cost
         self.verdict = "UNSET"
+        self.exc = None  # optional factory of the exception raised for verdict "raise" (default RuntimeError)
         self.calls = 0
         self.log = []
 
@@ -40,6 +41,8 @@ class StubAgent:
         v = self.verdict
         if v == "raise":
             self.log.append("raise")
+            if self.exc is not None:
+                raise self.exc()
             raise RuntimeError(f"{self.name} crashed")
         if self.cost and self.budget is not None:
             self.budget.consume(self.cost)
@@ -68,8 +71,9 @@ class Recorder:
 
 
 def make_loop(logic="AND", breaker=False, threshold=5, recovery=60.0, cache=True, cache_ttl=300.0,
-              budget=100_000, real=False, cost=0):
-    """Real CoherentFeedForwardLoop; stubs (or recorders around the built-in agents) assigned onto it."""
+              budget=100_000, real=False, cost=0, silent=True, **extra):
+    """Real CoherentFeedForwardLoop; stubs (or recorders around the built-in agents) assigned onto it.
+    `extra`: further constructor options passed through (on_block, on_permit, timeout_seconds)."""
     store = ATP_Store(budget=budget, silent=True)
     loop = CoherentFeedForwardLoop(
         budget=store,
@@ -79,7 +83,8 @@ def make_loop(logic="AND", breaker=False, threshold=5, recovery=60.0, cache=True
         recovery_timeout_seconds=recovery,
         enable_cache=cache,
         cache_ttl_seconds=cache_ttl,
-        silent=True,
+        silent=silent,
+        **extra,
     )
     if real:
         loop.executor = Recorder(loop.executor)
